@@ -220,6 +220,30 @@ def run_direct(case: dict) -> Outcome:
     if set(conv.dependencies) != {d["name"] for d in sig["deps"]}:
         out.v("dependency-split", f"{tag}: converter.dependencies={sorted(conv.dependencies)}, declared {[d['name'] for d in sig['deps']]}")
     compare(out, sig, payload, rec, failed, tag, case["converter"])
+    # a second execution with the very same payload must bind the same values even if the first execution mutated its
+    # (mutable) arguments in place - nothing may be shared between executions
+    if not failed and rec:
+        first = rec[0]
+        # (only values that came from the payload: a mutable *default* is shared between calls by Python itself)
+        from_payload = [v for k, v in first["named"].items() if payload and k in payload]
+        for v in from_payload + list(first["args"] or []) + list((first["kwargs"] or {}).values()):
+            if isinstance(v, list):
+                v.append("mutated-by-first-execution")
+            elif isinstance(v, dict):
+                v["mutated-by-first-execution"] = True
+        rec2: list = []
+        ns_fn, _ = compile_actor(sig, rec2, ret)
+        try:
+            a2, k2 = conv.convert_inputs(data)
+            asyncio.new_event_loop().run_until_complete(ns_fn(*a2, **k2, **{name: "<dep>" for name in conv.dependencies}))
+        except Exception:  # noqa: BLE001
+            rec2 = []
+        if rec2:
+            exp, _extras = expected_binding(sig, payload)
+            named2 = {k: v for k, v in rec2[0]["named"].items() if not k.startswith("dep")}
+            if exp is not None and any(named2.get(k) != exp[k] for k in exp if payload and k in payload):
+                out.v("state-shared-between-executions", f"{tag}: payload {payload!r}: a second execution received {named2!r} after the "
+                      f"first one mutated its arguments; expected {exp!r}", converter=case["converter"])
     kinds = {p["kind"] for p in sig["params"]}
     out.nontrivial = len(kinds) >= 2 and case["mode"] != "exact"
     out.cls("conv-" + case["converter"], "payload-" + case["mode"], "catch-all" if sig["var_args"] or sig["var_kwargs"] else "no-catch-all",
